@@ -20,6 +20,7 @@ TECHNIQUE = 'online reference-model post-condition (R-RULE) on Rule.assert_appli
 LEVEL_TEXT = 'Held on every observed evaluation: each Rule.assert_applies crossing the boundary is compared on the spot with an executable statement of the documented semantics. Complete over every import relation of 4-module trees x every single-subject/object rule shape; sampled beyond. Exploration, not proof: paths the workloads do not drive are not covered.'
 LEVEL_NOTE = 'Trusts R-RULE (70 lines, written from the docs) and the raw networkx graph as ground truth; strict oracle only where the docs are unambiguous (pairwise unrelated subjects/objects).'
 LEVEL_TEXT += ' Rules whose subjects (or whose objects) are nested in one another are judged too for the per-pair shapes (should / should not without except). Additionally an end-to-end soak: random projects on disk are scanned with the real scanner (externals kept or dropped, external exclusions, level limits, module_path below the root) and module rules, layer rules, diagram rules and plots are interleaved on those architectures with every monitor armed.'
+LEVEL_TEXT += " One rule object is also switched between the two 'anything' aliases and re-applied. Name pools include unusual legal identifiers (non-ASCII, combining marks, U+00B7, case / zero-padding twins, py*/init* names)."
 RULE = (
     "an evaluation = one Rule.assert_applies crossing the monitored boundary; non-trivial = judged by the strict "
     "R-RULE oracle (subjects/objects pairwise unrelated, both readings of the sub-modules-of ambiguity agree) on a "
